@@ -69,6 +69,12 @@ def run(chk):
     from . import c01
     ltexts = [t for (_, t) in gen_layout.variants(quick, rng)] + gen_pairs.pair_texts(rng, limit=4000 if quick else 30000)
     # one word too many after a complete statement of every form (every token spelling); chains of every repeatable construct
+    # errors raised after the parser has read on to the end of input, with multi-line comments / strings behind the last statement (F16)
+    for tail in (" (a\nb)", " (a\nb) (c\nd\ne)", "\t(a\n\u00e9)'", " (a\n\n\n)", " (c)", " \"a\nb\"", " (a\nb)\n", ""):
+        for head in ("Tommy is a -", "Tommy was a lovestruck -", "rock X like a -", "Tommy say'x", "Tommy says'", "'re Say'", "X say,", "Tommy is", "say", "put 1 into",
+                     "if", "let X be", "F takes", "say 1 +", "turn", "listen to", "X at", "roll", "cut X into", "say F taking", "build X", "give back"):
+            ltexts.append(head + tail)
+            ltexts.append("say 0\n" + head + tail)
     ltexts += c01.trailing(rng, limit=8000 if quick else None) + c01.chains() + c01.deep_nesting([1, 2, 3, 4, 5, 6, 9])
     suite.compare(chk, [f"(exec y{i} parse {C.hx(t)})" for i, t in enumerate(ltexts)], "layouts", project=lambda x: x, suite_name="PARSE-layouts")
     bad = 0
